@@ -79,6 +79,11 @@ ASSUMPTIONS = [
     "newline before the closing brace swallows it in Python's and in the specification's reading (no terminator), "
     "such inputs are outside the theorem and only compared (model = implementation)",
     "cached defs are rendered through a minimal in-memory CacheImpl registered by the harness (back ends are C17's)",
+    "filter-call arguments are int-valued expressions over context names (operators, and/or/not, comparisons, "
+    "conditional expressions, lambdas, .attr, [...], nested calls, keyword/star arguments); attribute access on a "
+    "decimal integer literal is not generated (re-emitted as `2.real`: recorded under C19, F6-int-attribute); the "
+    "printer of argument text is C19's model - C02 stays at oracle + correspondence level for it and carries the "
+    "named obligation filter_call_arguments_keep_grouping on regenerated facts",
 ]
 TRUSTED_EXTRA = [
     "C02: tools/regen_pipeline.py (DEFAULT_ESCAPES, Template.__init__ defaults of default_filters/buffer_filters, the "
@@ -452,6 +457,7 @@ def install_usermod():
     m = types.ModuleType(USERMOD)
     m.f = user_f
     m.g = user_g
+    m.R = user_R
     from mako.cache import CacheImpl, register_plugin
 
     class MemCacheImpl(CacheImpl):
@@ -488,7 +494,7 @@ def documented(name):
         return table[name]
     if name.startswith("decode."):
         return getattr(filters.decode, name[len("decode."):])
-    return eval(name, {"f": user_f, "g": user_g})
+    return eval(name, dict(ARGENV, f=user_f, g=user_g, R=user_R))
 
 
 def documented_chain(site, D, P, B, fs):
@@ -547,10 +553,12 @@ def render_cases(site, D, P, B, lists, how, x=None, strict=False):
     if site in CACHED_SITES:
         kw["cache_impl"] = "c02mem"
     if how == "import":
-        kw["imports"] = ["from %s import f, g" % USERMOD]
+        kw["imports"] = ["from %s import f, g, R" % USERMOD]
     else:
         data["f"] = user_f
         data["g"] = user_g
+        data["R"] = user_R
+    data.update(ARGENV)       # the names filter-call arguments refer to always come from the context
     if strict:
         kw["strict_undefined"] = True
     t = Template(src, buffer_filters=B, **kw)
@@ -639,6 +647,116 @@ def shrink_pipe(case):
     cur["input"] = "%s|D=%r|P=%r|B=%r|%s%s" % (cur["site"], cur["D"], cur["P"], cur["B"], ",".join(cur["fs"]),
                                               "|strict_undefined" if cur.get("strict") else "")
     return cur
+
+
+# --------------------------------------------------------------------------- filter-call arguments "as written"
+
+ARGENV = {"a": 0, "b": 3, "c": 2, "d": 0, "e": 7, "p": -2, "l": [], "m": [4, 1]}
+
+
+def user_R(*args, **kw):
+    """a filter factory that records what it was called with (its result shows the arguments it received)"""
+    name = "R%r%r" % (args, sorted(kw.items()))
+    return lambda x: _tag(name, x)
+
+
+def gen_arg_expr(rng, depth):
+    """an int-valued Python expression over ARGENV, fully parenthesised (the grouping is the tree)"""
+    r = rng.random()
+    if depth <= 0 or r < 0.18:
+        return rng.choice(["a", "b", "c", "d", "e", "p", "0", "1", "2", "5"])
+    sub = lambda: gen_arg_expr(rng, depth - 1)
+    if r < 0.34:
+        return "(%s %s %s)" % (sub(), rng.choice(["+", "-", "*", "|", "&", "^"]), sub())
+    if r < 0.50:
+        return "(%s %s %s)" % (sub(), rng.choice(["and", "or"]), sub())
+    if r < 0.58:
+        return "(%s %s)" % (rng.choice(["not", "-", "~"]), sub()) if rng.random() < 0.7 else "(%s ** 2)" % sub()
+    if r < 0.68:
+        return "(%s %s %s)" % (sub(), rng.choice(["<", "==", "!=", ">="]), sub())
+    if r < 0.76:
+        return "(%s if %s else %s)" % (sub(), sub(), sub())
+    if r < 0.82:
+        return "(lambda q: %s)(%s)" % (rng.choice([sub(), "(q + %s)" % sub(), "(q or %s)" % sub()]), sub())
+    if r < 0.88:
+        base = sub()
+        if base.isdigit():        # attribute access on a decimal literal: recorded under C19 (F6-int-attribute), not generated
+            base = rng.choice(["a", "b", "e", "p"])
+        return "(%s).%s" % (base, rng.choice(["real", "bit_length()"]))
+    if r < 0.94:
+        return "(l or m)[(%s & 1)]" % sub() if rng.random() < 0.6 else "(%s, %s)[(%s & 1)]" % (sub(), sub(), sub())
+    return rng.choice(["max(%s, %s)" % (sub(), sub()), "abs(%s)" % sub(), "(%s << (%s & 3))" % (sub(), sub())])
+
+
+def gen_filter_call(rng):
+    """`R(args…)` as an author would write it (minimal parentheses via ast.unparse, or the explicit tree), its value
+    must be computable; returns (entry text, grouping_sensitive)"""
+    for _ in range(50):
+        n = rng.choice([1, 1, 2, 3])
+        parts = [gen_arg_expr(rng, rng.randint(1, 3)) for _ in range(n)]
+        forms = list(parts)
+        k = rng.random()
+        if k < 0.2:
+            forms[-1] = "k=" + forms[-1]
+        elif k < 0.3:
+            forms.append("*(l or m)")
+        elif k < 0.35:
+            forms.append("**{'k': %s}" % gen_arg_expr(rng, 1))
+        full = "R(%s)" % ", ".join(forms)
+        try:
+            entry = ast.unparse(ast.parse(full, mode="eval")) if rng.random() < 0.8 else full
+            if '"' in entry or "\n" in entry:
+                continue
+            want = eval(entry, dict(ARGENV, R=lambda *a, **k: (a, sorted(k.items()))))
+        except Exception:
+            continue
+        # would the value change if the author's parentheses were lost?
+        flat = entry[2:-1].replace("(", " ").replace(")", " ") if "lambda" not in entry and "max" not in entry and "abs" not in entry \
+            and "[" not in entry and ".real" not in entry and ".bit_length" not in entry and "*" not in forms[-1][:1] else None
+        sens = False
+        if flat is not None:
+            try:
+                sens = eval("R(%s)" % flat, dict(ARGENV, R=lambda *a, **k: (a, sorted(k.items())))) != want
+            except Exception:
+                sens = True
+        return entry, sens
+    return "R(a or b)", False
+
+
+def task_arg_oracle(a):
+    """no Lean, no rendering: the entry re-emitted by the real ArgumentList must parse to the AST the author wrote
+    and evaluate to the same arguments"""
+    seed, n = a
+    import random
+    rng = random.Random(seed)
+    r = new_result()
+    rec = lambda *a_, **k_: (a_, sorted(k_.items()))
+    for _ in range(n):
+        entry, sens = gen_filter_call(rng)
+        r["cases"] += 1
+        br(r, "oracle-args:" + ("grouping-sensitive" if sens else "insensitive"))
+        try:
+            out = real_args(entry)
+            ok = (len(out) == 1 and ast.dump(ast.parse(out[0], mode="eval")) == ast.dump(ast.parse(entry, mode="eval"))
+                  and eval(out[0], dict(ARGENV, R=rec)) == eval(entry, dict(ARGENV, R=rec)))
+            detail = {"re-emitted": out}
+        except Exception as e:
+            ok, detail = False, {"raised": "%s: %s" % (type(e).__name__, e)}
+        if not ok:
+            r["viol"].append(("filter-argument-regrouped", {"kind": "argentry", "input": entry}, detail, "oracle.filter-arguments"))
+        if sens:
+            r["nontriv"].append(hash(entry))
+    return r
+
+
+def arg_entry_holds(entry):
+    rec = lambda *a_, **k_: (a_, sorted(k_.items()))
+    try:
+        out = real_args(entry)
+        return (len(out) == 1 and ast.dump(ast.parse(out[0], mode="eval")) == ast.dump(ast.parse(entry, mode="eval"))
+                and eval(out[0], dict(ARGENV, R=rec)) == eval(entry, dict(ARGENV, R=rec))), out
+    except Exception as e:
+        return False, "%s: %s" % (type(e).__name__, e)
 
 
 # --------------------------------------------------------------------------- scanner: implementation probes
@@ -1255,6 +1373,21 @@ def pipe_jobs(ctx):
                 # a def that is filtered but not buffered: buffer_filters are not applied (model = code)
                 for ch in chunks(few, 200):
                     corr.append(("def", D, P, B, ch))
+    # filter calls whose arguments come from an expression grammar (the text is re-emitted from the AST)
+    nargs = 240 if ctx.quick else 6000
+    arg_lists = []
+    for _ in range(nargs):
+        entry, _sens = gen_filter_call(rng)
+        arg_lists.append(rng.choice([[entry], [entry], ["h", entry], [entry, "trim"], ["n", entry], [entry, "f"]]))
+    for site in SITES:
+        for ci, (D, P) in enumerate(REPR_CFGS):
+            if site != "expr" and ci not in (0, 1):
+                continue
+            B = BUFS[ci] if site == "bufdef" else B0
+            for ch in chunks(arg_lists, 200):
+                corr.append((site, D, P, B, ch))
+                orc.append((site, D, P, B, ch, "import" if i % 2 else "context", (False, True) if ci == 0 else (False,)))
+                i += 1
     # every built-in flag name (alone and in pairs with every other entry) at every site, strict_undefined off AND on
     flag_lists = list(all_lists(2)) + [["decode.latin1"], ["decode.ascii", "h"], ["n", "decode.utf_8"], ["trim", "decode.cp1252"]]
     for (D, P) in REPR_CFGS + [(["str"], None)]:
@@ -1294,6 +1427,9 @@ def report_violations(ctx, viols):
     by_site = {}
     for v in viols:
         by_site.setdefault(v[0], []).append(v)
+    for grp in by_site.values():      # shortest case first (filter-call arguments are not shrunk further)
+        grp.sort(key=lambda v: len(",".join(v[1].get("fs", []))) if isinstance(v[1], dict) and "fs" in v[1]
+                 else len(str(v[1].get("input", ""))) if isinstance(v[1], dict) else 0)
     order = [v for grp in itertools.zip_longest(*by_site.values()) for v in grp if v is not None]
     for site, case, detail, stream in order[:60]:
         if len(ctx.violations) >= 12:
@@ -1405,6 +1541,7 @@ def run(ctx):
             norc = 4000 if ctx.quick else 60000
             pero = 1000 if ctx.quick else 5000
             so_jobs = [(ctx.rng.randrange(1 << 30), pero) for _ in range(norc // pero)]
+            ao_jobs = [(ctx.rng.randrange(1 << 30), 2500 if ctx.quick else 25000) for _ in range(4 if ctx.quick else 8)]
             ctx.log("jobs: %d pipeline-corr, %d pipeline-oracle, %d scanner-exhaustive (+%d k=7 phase), %d+%d generated, "
                     "%d scanner-oracle on %d processes" % (len(corr_jobs), len(orc_jobs), len(scan_jobs), len(k7),
                                                            len(gen_jobs), len(mut_jobs), len(so_jobs), NPROC))
@@ -1426,6 +1563,8 @@ def run(ctx):
                 oasyncs.append(("oracle.pipeline", pool.apply_async(task_pipe_oracle, (a,))))
             for a in so_jobs:
                 oasyncs.append(("oracle.scanner", pool.apply_async(task_scan_oracle, (a,))))
+            for a in ao_jobs:
+                oasyncs.append(("oracle.filter-arguments", pool.apply_async(task_arg_oracle, (a,))))
             corr_regexes(ctx, drv)
             corr_context_names(ctx, drv)
             for stream, kind, a in asyncs:
@@ -1498,6 +1637,11 @@ def replay(ctx, data):
         except Exception as e:
             print("model unavailable:", e)
         return not scan_spec_violated(s, terms)
+    if kind == "argentry":
+        ok, out = arg_entry_holds(case["input"])
+        print("written    :", case["input"])
+        print("re-emitted :", out)
+        return ok
     if kind == "scanexpr":
         ok, detail = scan_case_holds(case)
         print("impl:", "ok" if ok else detail)
